@@ -158,6 +158,8 @@ fn spellings(bits: u32) -> Vec<String> {
         "missing.slice",   // nonexistent
         "notes.txt",       // existing, not a Slice file
         "pkg/UP.SLICE",    // existing, the extension in another letter case: not a Slice file
+        "a.slice/x.slice", // nonexistent in a special way: a regular file is used as a directory (ENOTDIR)
+        "<root>/sub/../a.slice", // absolute AND not canonical
     ];
     if bits & 1 != 0 {
         v.push("pkg/empty");
